@@ -1,6 +1,55 @@
 """C01 — register allocation preserves the meaning of the program."""
+import json, os
 
 FILES = ["c09.go", "c02.go", "c01.go", "c01x.go"]
+
+
+def floors(ctx, sub, floors_):
+    """Lower bounds on the number of judged cases per stream: silently dropped cases must not hide a failure."""
+    st = ctx.coverage.get("input_distribution", {}).get(sub)
+    if st is None:
+        return
+    for key, lo in floors_.items():
+        got = st.get(key, 0)
+        if got < lo:
+            ctx.obligation_failures.append((f"{sub}: sample floor {key}", f"only {got} cases of stream '{key}' were judged (floor {lo})"))
+    ctx.coverage.setdefault("sample_floors", {})[sub] = floors_
+
+
+def ceilings(ctx, sub, ceil_):
+    st = ctx.coverage.get("input_distribution", {}).get(sub)
+    if st is None:
+        return
+    for key, hi in ceil_.items():
+        got = sum(v for k, v in st.items() if k == key or k.startswith(key + ":"))
+        if got > hi:
+            ctx.obligation_failures.append((f"{sub}: drop ceiling {key}", f"{got} cases were dropped as '{key}' (ceiling {hi})"))
+
+
+def exact_model_info(ctx, sub="c01", driver="drv_c01"):
+    """INFORMATIONAL: the exact allocation of the implementation next to the Lean model of avo's greedy allocator.
+    Which colour a virtual register gets is not pinned by the property (any valid assignment is fine; an error is
+    always allowed), so a disagreement here never fails the check: only the agreement rate is recorded."""
+    base = os.path.join(ctx.dir, sub)
+    ops, impl, model = base + ".ops.info", base + ".impl.info", base + ".model.info"
+    if not (os.path.exists(ops) and os.path.exists(impl)):
+        return
+    before = len(ctx.obligation_failures)
+    if not ctx.run_driver(ops, model, driver=driver):
+        del ctx.obligation_failures[before:]          # informational only
+        ctx.notes.append("exact allocator model: driver did not run on the informational stream")
+        return
+    n = same = same_class = 0
+    for a, b in zip(open(impl), open(model)):
+        n += 1
+        same += a == b
+        same_class += a.split()[:1] == b.split()[:1]
+    ctx.coverage["exact_allocator_model_agreement"] = {"functions": n, "same_allocation_or_both_error": same, "same_outcome_class": same_class,
+                                                      "role": "informational: not part of the verdict"}
+    if same != n:
+        ctx.notes.append(f"informational: the exact model of avo's allocator (Model/Alloc.lean) differs from the implementation on {n - same} of {n} "
+                         "functions (colour choice is free under the property; the acceptors judge the implementation's own allocation)")
+
 
 def run(ctx):
     if not ctx.build_harness(FILES):
@@ -16,24 +65,48 @@ def run(ctx):
     nt = lambda req, resp: req.startswith("accept-alloc") and "=> ok 0" not in req and "=> err" not in req
     ctx.run_corpus("c01", nontrivial=nt)
     n = 2500 if ctx.tier == "quick" else 60000
-    ctx.differential("c01", n, nontrivial=nt)
+    if ctx.differential("c01", n, nontrivial=nt) is not None:
+        floors(ctx, "c01", {"functions": n * 9 // 10, "outcome:ok": n // 2, "bound_functions": n // 2, "staircase_depth_ge6": n // 64,
+                            "usedef_crosschecks": 2 * n, "bound_input_output_pairs": 5 * n, "compile:ok": n // 6})
+        ceilings(ctx, "c01", {"cfg_rejected": n // 50, "liveness_error": 0})
+        exact_model_info(ctx)
     # measured end to end on the CPU: avo-compiled vs private-storage execution of the same program
-    import os
     nx, trials = (150, 48) if ctx.tier == "quick" else (6000, 256)
-    ctx.differential("c01x", nx, extra=["-dir", os.path.join(ctx.dir, "x-gen"), "-trials", str(trials)],
-                     nontrivial=lambda req, resp: " same " in req)
-    ctx.coverage["rule"] = ("generated functions (all GP widths incl. 8H views of the same virtual, XMM/YMM/ZMM, K, author-chosen physical "
-                            "and implicit-register instructions, pressure below and above the register file, loops, diamonds, dead "
-                            "definitions) through the real LabelTarget/CFG/ZeroExtend/Liveness/AllocateRegisters/BindRegisters/"
-                            "VerifyAllocation. (i) acceptor = hypotheses of theorem accepted_preserves evaluated on the implementation's "
-                            "own use/def/CFG/live sets/allocation (post-fixpoint, no definition onto a different live-out byte, allocation "
-                            "shape), plus encodability of high-byte registers; (ii) exact comparison of allocation / error class with the "
-                            "Lean model of the allocator; (iii) measured: generated GP programs (all widths, 8H views, implicit MULQ/CL, "
-                            "forward branches, flags consumers) are compiled by the real pipeline AND rewritten with every virtual register in "
-                            "its own stack slot; both are assembled, linked and executed on random and boundary argument vectors and must "
-                            "return the same results; non-trivial = compiled successfully with at least one virtual register")
+    if ctx.differential("c01x", nx, extra=["-dir", os.path.join(ctx.dir, "x-gen"), "-trials", str(trials)],
+                        nontrivial=lambda req, resp: " same " in req) is not None:
+        floors(ctx, "c01x", {"programs": nx // 2, "judged": nx // 2})
+    ctx.coverage["rule"] = (
+        "generated functions (all GP widths incl. 8H views of the same virtual, XMM/YMM/ZMM, K, gather/scatter forms with VECTOR index "
+        "registers, four-operand forms, author-chosen physical and implicit-register instructions, pressure below and above the register "
+        "file, loops, diamonds, dead definitions, and 'staircase' loops that need up to 13 (thorough: 52) liveness sweeps) through the real "
+        "LabelTarget/CFG/ZeroExtend/Liveness/AllocateRegisters/BindRegisters/VerifyAllocation one by one, and an identical twin of every third "
+        "function through the entry point pass.Compile (whole pass list in the library's order). Everything is judged by acceptors on the "
+        "implementation's OWN output: (i) accept-alloc = hypotheses of theorem accepted_preserves (liveness post-fixpoint on the "
+        "implementation's use/def/CFG/live sets, no definition onto a different live-out byte, allocation shape), for the pass-by-pass "
+        "allocation and for pass.Compile's allocation; (ii) accept-regs (sound: checkRegsAt_sound) = Instruction.Registers() is exactly "
+        "the harness's own traversal of the operand values (register operands; base AND index of memory operands) and every address register "
+        "is in InputRegisters(); (iii) accept-usedef / accept-cfg = the use/def sets and the CFG the allocator relies on against the "
+        "specification derived from the form's operand actions / from the opcode (C02's and C09's acceptors in C01's driver); (iv) "
+        "accept-bind (sound: checkBind_sound) on operands, inputs and outputs after BindRegisters and after pass.Compile; accept-enc = no "
+        "high-byte register in a REX-requiring instruction; (v) accept-stage = no pass panics, binding keeps the shape of operands; (vi) "
+        "measured, accept-exec: generated GP programs (all widths, 8H views, implicit MULQ/CL, forward branches, jumps to the next label, "
+        "diamonds, flags consumers) are compiled by pass.Compile AND rewritten with every virtual register in its own stack slot; both are "
+        "assembled, linked and executed on random and boundary argument vectors and must return the same results. The exact Lean model of "
+        "avo's greedy allocator (Model/Alloc.lean, about which avo_alloc_valid_installed / pipeline_preserves / compiled_preserves are "
+        "proved) is compared with the implementation on an INFORMATIONAL stream only (coverage.exact_allocator_model_agreement): the "
+        "property leaves the colour free, and an error is always an acceptable outcome, so neither the exact allocation nor ok-vs-error is "
+        "part of the verdict; sample floors (coverage.sample_floors) make silently dropped cases an obligation failure. "
+        "non-trivial = compiled successfully with at least one virtual register")
     ctx.assumptions += [
         "real x86 instructions are functions of their declared input bytes and write only their declared output bytes (C04); a VEX-encoded write to an XMM/YMM view also zeroes the upper ZMM bits, which avo's byte masks do not express (DESIGN §6 F12: modelled-not-verified)",
         "flags and other global machine state are shared by both executions (part of Mem in the abstract machine)",
         "the encodability rule (high-byte register vs REX) was measured on the Go assembler, not proved",
+        "distinct virtual registers of one function have distinct ids. reg.Collection hands out a 16-bit index per kind (reg/collection.go: c.idx[k]++ on uint16) shared by the whole build.Context, so the 65 537th GP64() has the id of the first: two virtuals are then ONE register to liveness, allocation and this model, and a value is clobbered (MOVQ $42,keep; 65 536 x GP64(); MOVQ $7,t; MOVQ keep,ret returns 7). This is finding F13 of C20 (known_findings.json) seen through C01; the model takes ids as given",
+        "completeness of the allocator (finding an assignment whenever one exists) is not part of the property ('compiling either fails with an error or …') and is not checked; floors on the number of successfully compiled functions guard against a pipeline that always fails",
+        "the generator's strict mode approximates 'reads only register bytes it has previously written'; 1 function in 6 is generated without it (virtual bytes live at entry) — the acceptors do not need the hypothesis, only theorem entry_rel / compiled_preserves_from_entry does",
+    ]
+    ctx.trusted += [
+        "the harness's traversal of operand values (c01OpRegs: reg.Register; operand.Mem{Base,Index}) is the ground truth for 'the registers of an instruction'",
+        "accept-exec: the comparison of the two executions is done by the generated Go program; the Lean driver only sees the verdict string `same` / `diff:…` (measured, not proved)",
+        "the use/def sets (InputRegisters/OutputRegisters) and Succ lists are the implementation's; they are cross-checked by accept-usedef on a sample (every cancelling form, 1 in 4 of the others) and accept-cfg on every function",
     ]
